@@ -530,6 +530,45 @@ def strip_doc_and_logging(body):
     return out
 
 
+class _DeepStrip(ast.NodeTransformer):
+    def _clean(self, body):
+        out = []
+        for st in body:
+            if isinstance(st, ast.Expr):
+                v = st.value
+                if isinstance(v, ast.Constant) and isinstance(v.value, str):
+                    continue
+                if isinstance(v, ast.Call) and is_logging_call(v):
+                    continue
+            if isinstance(st, ast.Assert):
+                continue
+            st = self.visit(st)
+            out.append(st)
+        return out
+
+    def generic_visit(self, node):
+        for fld in ("body", "orelse", "finalbody"):
+            b = getattr(node, fld, None)
+            if isinstance(b, list) and b and isinstance(b[0], ast.stmt):
+                nb = self._clean(b)
+                if fld == "body" and not nb:
+                    nb = [ast.Pass()]
+                setattr(node, fld, nb)
+        for h in getattr(node, "handlers", []) or []:
+            h.body = self._clean(h.body) or [ast.Pass()]
+        return node
+
+
+def deep_strip(body):
+    """Deep copy of a statement list without docstrings, logging/print calls and asserts
+    (recursively, inside if/for/while/try/with bodies too)."""
+    import copy
+
+    mod = ast.Module(body=copy.deepcopy(list(body)), type_ignores=[])
+    mod.body = _DeepStrip()._clean(mod.body)
+    return mod.body
+
+
 LOGGER_NAMES = {"_LOGGER", "logger", "logging", "LOGGER", "_logger"}
 
 
